@@ -200,6 +200,8 @@ func runC01(env *Env) {
 			rep.Violate("C01-token-game", cs, o.problem+"; log: "+logString(o.log))
 		}
 	}
+	// the instance ends with the variables the answered tasks wrote, also when many tasks are answered at once
+	manyWritersAtOnce(env, rep, "C01-token-game", 6)
 	// many tokens through one chain of nodes at the same time (more than a node's inbox holds): every token passes every
 	// node exactly once — exclusive merge, exclusive split, parallel gateway with one way in and out, sub-process, task,
 	// end event (no inclusive gateway in the chain: it would merge the tokens of one fork, the open finding's mechanism)
